@@ -378,7 +378,12 @@ LIGHT = [0, 0, 1, 400, 1000, 4000, 10000, 65535, 65536, 65537, 70000, 4294967295
 
 
 def gen_hist(rng, n):
-    kind = rng.below(8)
+    kind = rng.below(10)
+    if kind >= 8:
+        # a dark frame: everything in one low bin (average PQ code roughly 500..1400: around the L1 avg floors 819 / 1229)
+        h = [0] * n
+        h[max(1, n // 16) + rng.below(max(1, n // 9))] = 64000
+        return h
     if kind == 0:
         return [0] * n                                   # no measurement at all
     if kind == 1:
